@@ -279,10 +279,17 @@ func RenameBack(dir string, overlay map[string][]byte, goarch string, base *Base
 				bp := base.Funcs[k].Params
 				cp := paramNames(fd)
 				if len(bp) == len(cp) && fd.Type.Params != nil {
+					// by position, and only a renaming: a name that the other side has at another position means the
+					// parameters were reordered, and position says nothing then
+					inB, inC := map[string]bool{}, map[string]bool{}
+					for j := range bp {
+						inB[bp[j]] = true
+						inC[cp[j]] = true
+					}
 					i := 0
 					for _, fl := range fd.Type.Params.List {
 						for _, nm := range fl.Names {
-							if bp[i] != cp[i] && bp[i] != "_" && cp[i] != "_" {
+							if bp[i] != cp[i] && bp[i] != "_" && cp[i] != "_" && !inB[cp[i]] && !inC[bp[i]] {
 								if obj := pk.TypesInfo.Defs[nm]; obj != nil && !nameTaken(fd, bp[i]) {
 									rens = append(rens, ren{obj, bp[i], fmt.Sprintf("parameter %s of %s (was %s)", cp[i], k, bp[i])})
 								}
